@@ -72,7 +72,7 @@ func init() {
 		funcs:   []glFunc{{name: "VerifyHash"}},
 		externs: []string{"checksumCrc64", "checksumFnv"}})
 	registerGoLite(glGroup{id: "golitec16", out: "GoLiteC16.v", pkgDir: "split-car-fetcher",
-		funcs:   []glFunc{{recv: "MultiReaderAt", name: "ReadAt"}},
+		funcs:   []glFunc{{recv: "MultiReaderAt", name: "ReadAt"}, {name: "NewMultiReaderAt"}},
 		externs: []string{"io.ReaderAt.ReadAt:out0"}, hoist: true})
 	registerGoLite(glGroup{id: "golitec13", out: "GoLiteC13.v", pkgDir: "compactindexsized",
 		funcs: []glFunc{
